@@ -130,16 +130,28 @@ func (r *Result) Merge(others ...*Result) *Result {
 // Data returns the original data object used for validation. Mutating this renders
 // the result invalid.
 func (r *Result) Data() interface{} {
+	if r == nil {
+		return nil
+	}
+
 	return r.data
 }
 
 // RootObjectSchemata returns the schemata which apply to the root object.
 func (r *Result) RootObjectSchemata() []*spec.Schema {
+	if r == nil {
+		return nil
+	}
+
 	return r.rootObjectSchemata.Slice()
 }
 
 // FieldSchemata returns the schemata which apply to fields in objects.
 func (r *Result) FieldSchemata() map[FieldKey][]*spec.Schema {
+	if r == nil {
+		return nil
+	}
+
 	if r.cachedFieldSchemata != nil {
 		return r.cachedFieldSchemata
 	}
@@ -160,6 +172,10 @@ func (r *Result) FieldSchemata() map[FieldKey][]*spec.Schema {
 
 // ItemSchemata returns the schemata which apply to items in slices.
 func (r *Result) ItemSchemata() map[ItemKey][]*spec.Schema {
+	if r == nil {
+		return nil
+	}
+
 	if r.cachedItemSchemata != nil {
 		return r.cachedItemSchemata
 	}
